@@ -142,6 +142,26 @@ def Coll.runO (cfg : Cfg M K R) : CState M R → List (COpO M K) → List (CRes 
     let (rs, s2) := Coll.runO cfg s1 ops
     (r :: rs, s2)
 
+/-- A Value call with its option list. -/
+inductive VOpO (M K : Type)
+  | get (opts : List (ROpt M K))
+  | set (msg : M) (opts : List (WOpt M K))
+
+def Value.stepO (cfg : Cfg M K R) (s : VState M) : VOpO M K → VRes M × VState M
+  | .get opts => (.got (Value.getO cfg s opts), s)
+  | .set msg opts => let (o, s') := Value.setO cfg s msg opts; (.wrote o, s')
+
+def Value.runO (cfg : Cfg M K R) : VState M → List (VOpO M K) → List (VRes M) × VState M
+  | s, [] => ([], s)
+  | s, op :: ops =>
+    let (r, s1) := Value.stepO cfg s op
+    let (rs, s2) := Value.runO cfg s1 ops
+    (r :: rs, s2)
+
+def compileVOp (ops : MsgOps M K) : VOpO M K → VOp M K
+  | .get opts => .get (computeReadConfig opts)
+  | .set msg opts => .set msg (computeWriteConfig ops opts)
+
 /-- The call on the request RECORD that a call on an option list amounts to. -/
 def compileOp (ops : MsgOps M K) : COpO M K → COp M K
   | .get id opts => .get id (computeReadConfig opts)
